@@ -17,6 +17,7 @@ Race case (JSON):
   wake_late    list of indexes into WAKE_LATE, consumed one per wake-up (cycled)
   prep_tasks   list of durations of track preparation tasks (scripted processor)
   queue_size   None | int      downsample  None | int
+  preempt      None | list of indexes into PREEMPT, consumed one per pre-emption point (Future.done() in a handler), cycled
   quiet        bool
   fault        None | {...}  (see checks/c09)
 """
@@ -38,6 +39,8 @@ from sim import actors, kernel, world
 
 DELAYS = [0.0, 0.0, 1 / 1024, 1 / 1024, 0.25, 0.3125, 2.0, 7.0]
 WAKE_LATE = [0.0, 0.0, 0.0, 1 / 1024, 0.125]
+# pre-emption windows: how much executor-thread work may happen while an actor handler sits at a shared-state read
+PREEMPT = [0.0, 0.0, 1 / 1024, 1 / 8, 1.0]
 
 
 class Progress:
@@ -216,7 +219,7 @@ def horizon_for(case):
     return total
 
 
-def run_race(case, inject=None, after_complete_grace=True):
+def run_race(case, inject=None, after_complete_grace=True, collect_metrics=False):
     """
     inject(rt, world, loop) may schedule faults. Returns a RaceResult.
     """
@@ -266,15 +269,31 @@ def run_race(case, inject=None, after_complete_grace=True):
             inst.pool = actors.SimPool(rt, rec.proc, sync_duration=prep_cycle.next)
 
     rt.on_actor_created = on_actor_created
+    if case.get("preempt"):
+        pre_cycle = Cycler(case["preempt"], PREEMPT)
+        rt.preempt = lambda what: pre_cycle.next()
     res.rt = rt
     res.world = w
     SimProcessorRegistry.durations = list(case.get("prep_tasks", []))
     state = {"complete": False, "failed": False, "cancelled": False, "driver": None, "t_complete": None}
 
+    res.store = None
+    res.handovers = []
+
     def on_external(msg, sender):
         if isinstance(msg, driver.PreparationComplete):
             rt.tell(state["driver"], driver.StartBenchmark())
+        elif isinstance(msg, driver.TaskFinished):
+            if collect_metrics:
+                # race control (BenchmarkCoordinator.on_task_finished)
+                before = len(res.store.docs)
+                res.store.bulk_add(msg.metrics)
+                res.handovers.append((clock.now, "TaskFinished", len(res.store.docs) - before))
         elif isinstance(msg, driver.BenchmarkComplete):
+            if collect_metrics:
+                before = len(res.store.docs)
+                res.store.bulk_add(msg.metrics)
+                res.handovers.append((clock.now, "BenchmarkComplete", len(res.store.docs) - before))
             state["complete"] = True
             state["t_complete"] = clock.now
             # race control: bulk-add metrics, then ask the driver to exit
@@ -311,6 +330,8 @@ def run_race(case, inject=None, after_complete_grace=True):
     ]
     with kernel.patched(*patches):
         try:
+            if collect_metrics:
+                res.store = metrics.metrics_store(cfg, track=t.name, challenge=challenge.name, read_only=False)
             state["driver"] = rt.create_actor(driver.DriverActor, parent=None, requirements={"coordinator": True})
             rt.tell(state["driver"], driver.PrepareBenchmark(cfg, t))
             if inject is not None:
